@@ -214,18 +214,20 @@ PROPS["C06"] = dict(
 )
 
 PROPS["C18"] = dict(
-    units=["healthcheck"],
+    units=["healthcheck", "hcselect"],
     title="Health status flips only at its thresholds",
     level_text="Deductive proof (Verus) on the real bodies of HealthCheckedContext::{status,set_status,set_last_check,consecutive_*,record_success,record_failure} (RwLock erased: whole-state postconditions) and on the status-update "
                "block of the checker task (fragment of HealthCheckWrapper::start extracted by anchor, including the mapping of a timed-out check to Unhealthy): the published status becomes Unhealthy only on a failed or timed-out "
                "check whose consecutive-failure run has reached failure_threshold, Healthy only on a healthy check whose run of consecutive non-failing checks has reached success_threshold, Degraded at once, and an Unknown "
                "result changes neither status nor counters. For all thresholds, all prior states, all results.",
-    level_note="ONLY the threshold clauses are decided. Not decided: get_healthy/get_usable eligibility and round-robin evenness (SelectionStrategy::select and get_with_filter are iterator-adapter chains over contexts holding "
-               "HashMap/String/Arc<RwLock>; outside Verus' dialect, and Kani did not finish on them in 15 min). The counters are the run lengths by induction over record_success/record_failure (meta-argument).",
+    level_note="Selection (unit hcselect): get_healthy / get_usable / get_with_filter return only a monitored resource whose currently published status passes the filter (so nothing when none qualifies); the built-in "
+               "strategies pick a usable resource if there is one, PreferHealthy a healthy one if there is one; round-robin indexes the ascending list of usable indices with counter % len (in bounds). The std iterator-adapter "
+               "chains inside these functions (position, enumerate/filter/map/collect, filter/cloned/collect) are replaced by contracted helpers stating what the chain computes (R10-iter, ASSUMED); the code around them is the real text. "
+               "Round-robin EVENNESS is not decided beyond that formula (it follows from the shared counter's atomic increment, assumed). The counters are run lengths by induction over record_success/record_failure (meta-argument).",
     technique="contract-based deductive verification (Verus): whole-state contracts + anchored fragment of the checker task",
     design_ref="§6 C18",
     assumptions=["one checker task per resource updates the counters (critical sections atomic, R8)", "counters below u64::MAX"],
-    trusted=COMMON_TRUST, excluded=["selection clauses: get_healthy / get_usable / round-robin (not decided)"],
+    trusted=COMMON_TRUST, excluded=["round-robin evenness over time (only: the pick is usable_indices[counter % len])", "Random strategy (cfg feature off)", "semantics of the std iterator adapters (assumed helpers)"],
 )
 
 PROPS["C19"] = dict(
